@@ -11,7 +11,7 @@ func init() {
 		Rule: "case = (object kind of the 6 generated *List methods, local cluster + 0-3 remotes + unknown prefixes, 1-3 uuid filters ('=' / 'in' as []string or []interface{} with non-string junk) " +
 			"with per-filter extras, duplicates and malformed uuids so that only the intersection counts, any subset existing, count/limit/offset/order/other filter/select, MaxItemsPerResponse at and around the number of uuids, " +
 			"per-backend paging: page size 1..1000, random short pages, random order, optionally an item repeated in the same or a later answer); " +
-			"the real federation.Conn is run once fault-free and then once per (backend call of the fault-free run x {error, one kind of no-progress answer (foreign / already delivered / uuid-less / other cluster's uuids; once or sticky), " +
+			"the real federation.Conn is run once fault-free and then once per (backend call of the fault-free run - first call or in the middle of paging, local or remote cluster - x {error carrying each of the HTTP statuses none (plain error) / 404 / 403 / 422 / 500 / 503, as httpserver.ErrorWithStatus or *arvados.TransactionError (swallowed errors at one call are reported together; the signature names the statuses only when some of them still fail the request), one kind of no-progress answer (foreign / already delivered / uuid-less / other cluster's uuids; once or sticky), " +
 			"cancellation of the request context while that call is in flight - after the other backends have answered or immediately, other backends observing the cancellation or not - the call ending with the context's error}); " +
 			"each returned item is traced by serial number to the backend call that served it; " +
 			"non-trivial = at least one well-formed uuid is requested by all uuid filters; distinct = distinct (kind, cluster class, #clusters, #uuid filters, existing/requested, option class, paging class, size zone) tuples",
